@@ -164,6 +164,30 @@ PANIC_CALLS = (
 )
 
 
+STRING_LENGTHS = ("core::str::<impl str>::len", "std::string::String::len", "alloc::string::String::len")
+
+
+def _length_plus_small_constant(B, bb, t):
+    """the overflow flag tested by this Assert belongs to `<str or String>.len() + c` with a constant c < 2^16"""
+    c = t.get("cond") or {}
+    if c.get("k") not in ("copy", "move"):
+        return False
+    l = c["p"]["l"]
+    rv = None
+    for st in B.blocks[bb]["stmts"]:
+        if st["k"] == "assign" and st["p"]["l"] == l and not st["p"].get("proj"):
+            rv = st["rv"]
+    if rv is None or rv.get("k") != "binop" or rv.get("op") != "AddWithOverflow":
+        return False
+    ops = [rv["a"], rv["b"]]
+    consts = [o for o in ops if o.get("k") == "const" and isinstance(o.get("bits"), int) and 0 <= o["bits"] < 65536 and o.get("ty") == "usize"]
+    others = [o for o in ops if o.get("k") in ("copy", "move")]
+    if len(consts) != 1 or len(others) != 1:
+        return False
+    os_ = M.trace(B, others[0], ())
+    return bool(os_) and all(o.kind == "call" and (M.Body.callee_decl(o.term) or "") in STRING_LENGTHS and not o.proj for o in os_)
+
+
 def scan_panics(crate):
     """Panic-family operations: calls and Assert terminators. -> [(fn, site, what, ordinal, bb)]"""
     out = []
@@ -179,6 +203,8 @@ def scan_panics(crate):
                     what = decl
             elif t.get("k") == "assert":
                 what = "assert:" + str(t.get("msg"))
+                if t.get("msg") == "Overflow" and _length_plus_small_constant(B, i, t):
+                    what = None    # `s.len() + 1`: a string's length is at most isize::MAX, the sum fits usize on every input
             if what:
                 n = seen.get(what, 0)
                 seen[what] = n + 1
